@@ -240,6 +240,14 @@ package scipipe
 // Known finding F6: the pieces that identify a task (name, path segments of the inputs, name_value of parameters and
 // tags) are concatenated without a separator before hashing, so different tasks of one process can share a temp dir.
 //@   atcall strings.Join pieces-stay-separable[C14]: $arg1 != ""
+// Different processes must get different directories even when their names look alike: the hash input starts with the
+// raw process name, not a normalised form of it.
+//@   atcall strings.Join hash-input-starts-with-the-raw-process-name[C14]: len($arg0) >= 1 && $arg0[0] == t.Name
+//@   loop 0 invariant first-piece: len(hashPcs) >= 1 && hashPcs[0] == t.Name && t == old(t)
+//@   loop 1 invariant first-piece: len(hashPcs) >= 1 && hashPcs[0] == t.Name && t == old(t)
+//@   loop 2 invariant first-piece: len(hashPcs) >= 1 && hashPcs[0] == t.Name && t == old(t)
+//@   loop 3 invariant first-piece: len(hashPcs) >= 1 && hashPcs[0] == t.Name && t == old(t)
+//@   loop 4 invariant first-piece: len(hashPcs) >= 1 && hashPcs[0] == t.Name && t == old(t)
 
 //@ func (*Task).tempDirsExist(t) (res)
 //@   props C03
@@ -522,11 +530,13 @@ package scipipe
 //@   modifies chan(wf.concurrentTasks), locked
 //@   ensures deposited: chanSentN(wf.concurrentTasks) == old(chanSentN(wf.concurrentTasks)) + ite(slots > 0, slots, 0)
 //@   ensures no-withdrawal: chanRecvA(wf.concurrentTasks) == old(chanRecvA(wf.concurrentTasks))
-//@   ensures mutex-released[C07]: !locked[wf.concurrentTasksMx]
-//@   atsend under-mutex[C07]: locked[wf.concurrentTasksMx] && $ch == wf.concurrentTasks
+// (C05: that a task takes all its slots in one critical section is a lemma the termination argument of Run needs: two
+// multi-core tasks that each hold part of their slots would wait for each other for ever)
+//@   ensures mutex-released[C05,C07]: !locked[wf.concurrentTasksMx]
+//@   atsend under-mutex[C05,C07]: locked[wf.concurrentTasksMx] && $ch == wf.concurrentTasks
 //@   loop 0 invariant count: i >= 0 && (i <= slots || i == 0) && chanSentN(wf.concurrentTasks) == old(chanSentN(wf.concurrentTasks)) + i
 //@   loop 0 invariant no-withdrawal: chanRecvA(wf.concurrentTasks) == old(chanRecvA(wf.concurrentTasks))
-//@   loop 0 invariant mutex-held: locked[wf.concurrentTasksMx]
+//@   loop 0 invariant mutex-held[C05,C06,C07]: locked[wf.concurrentTasksMx]
 
 //@ func (*Workflow).DecConcurrentTasks(wf, slots)
 //@   props C06 C07
@@ -831,8 +841,8 @@ package scipipe
 //@   loop 0 invariant range: 0 <= $i && $i <= len(placeHolderMatches) && len(placeHolderInfos) == $i
 //@   loop 0 invariant parse: forall j int :: 0 <= j && j < $i ==> allocated(placeHolderInfos[j]) && placeHolderInfos[j].match == placeHolderMatches[j][0] && placeHolderInfos[j].portName == splitOf(placeHolderMatches[j][2], "|")[0] && len(placeHolderInfos[j].modifiers) == len(splitOf(placeHolderMatches[j][2], "|")) - 1 && (forall k int :: 0 <= k && k < len(placeHolderInfos[j].modifiers) ==> placeHolderInfos[j].modifiers[k] == splitOf(placeHolderMatches[j][2], "|")[k + 1])
 //@   loop 1 invariant parsed: forall j int :: 0 <= j && j < len(placeHolderInfos) ==> placeHolderInfos[j] != nil && placeHolderInfos[j].match == placeHolderMatches[j][0] && placeHolderInfos[j].portName == splitOf(placeHolderMatches[j][2], "|")[0] && (forall k int :: 0 <= k && k < len(placeHolderInfos[j].modifiers) ==> placeHolderInfos[j].modifiers[k] == splitOf(placeHolderMatches[j][2], "|")[k + 1])
-//@   loop 2 invariant range: 0 <= $i && $i <= len(subStreamIPs[portName]) && len(paths) == $i
-//@   loop 2 invariant joined: forall j int :: 0 <= j && j < $i ==> paths[j] == prependOf(applyMods(subStreamIPs[portName][j].path, placeHolder.modifiers))
+//@   loop 2 invariant range[C15,C18]: 0 <= $i && $i <= len(subStreamIPs[portName]) && len(paths) == $i
+//@   loop 2 invariant joined[C15,C18]: forall j int :: 0 <= j && j < $i ==> paths[j] == prependOf(applyMods(subStreamIPs[portName][j].path, placeHolder.modifiers))
 
 // process.go initPortsFromCmdPattern (C18): the join separator of a placeholder part "join:SEP" is SEP, all of it.
 // (The parts are the |-separated pieces of a placeholder body, which contains neither braces nor bars: that is the
@@ -1192,6 +1202,10 @@ package scipipe
 //@   ensures run-set-only-shrinks: forall k string :: k in procs ==> old(k in procs) && procs[k] == old(procs[k])
 //@   ensures only-driver-removed: forall k string :: old(k in procs) && !(k in procs) ==> old(procs[k]) == wf.driver
 //@   loop 0 invariant same: forall k string :: (k in procs <==> old(k in procs)) && procs[k] == old(procs[k])
+// A connection into a process outside the run set is cut (file ports and parameter ports alike), a connection into a
+// process of the run set is kept: per round of the two innermost loops.
+//@   loop 2 step foreign-remote-is-cut[C16]: ipt != nil && ipt.process != nil && !(procName(ipt.process) in procs) ==> !(iptName in opt.RemotePorts)
+//@   loop 4 step foreign-param-remote-is-cut[C16]: rpp != nil && rpp.process != nil && !(procName(rpp.process) in procs) ==> !(rppName in pop.RemotePorts)
 
 //@ func (*Workflow).runProcs(wf, procs)
 //@   props C04 C16
@@ -1606,6 +1620,7 @@ package scipipe
 //@   modifies effMkdir, effShell, fsEpoch, locked
 //@   ensures fifo-exists-or-made[C17]: effShell["mkfifo " + ip.path + ".fifo"] || old(effShell)["mkfifo " + ip.path + ".fifo"] || (exists e int :: statOK(e, ip.path + ".fifo"))
 //@   ensures no-regular-file[C17]: effCreated == old(effCreated) && effRenamed == old(effRenamed)
+//@   ensures shell-log-grows: forall s string :: old(effShell)[s] ==> effShell[s]
 
 // The Go statement `go t.Execute()`: one more task execution has been started.
 
@@ -1623,6 +1638,8 @@ package scipipe
 //@   atgo (*Task).Execute the-task-just-received[C04]: $arg0 == t && taskOK(t) && t.Process == p
 //@   atgo (*Task).Execute fifos-ready-before-start[C17]: forall o string :: o in t.OutIPs && t.OutIPs[o].doStream ==> $visited1[o]
 //@   atcall (*FileIP).CreateFifo refuse-existing-fifo[C03,C17]: !statOK(fsEpoch, oip.path + ".fifo")
+// The named pipe exists before the streaming IP is announced downstream (the consumer may open it at once).
+//@   atcall (*OutPort).Send fifo-made-before-the-streaming-ip-is-announced[C17]: ptr(FileIP, $arg1).doStream ==> effShell["mkfifo " + ptr(FileIP, $arg1).path + ".fifo"] || (exists e int :: statOK(e, ptr(FileIP, $arg1).path + ".fifo"))
 //@   atcall (*BaseProcess).CloseOutPorts closes-only-when-all-done[C05]: tasks == nil && len(startedTasks) == 0
 //@   loop 0 invariant wf: wfProcess(p) && wfRunPorts(p) && curTasks[p] != nil && taskChanOwner(curTasks[p]) == p
 //@   loop 0 invariant chan: tasks == nil || tasks == curTasks[p]
